@@ -147,6 +147,9 @@ def check_proofs(pid):
             except FileNotFoundError:
                 pass
     ok, out = coq_build(targets)
+    # everything else (the models and checkers the case files import) must be consistent with the
+    # regenerated Gen files as well; failures of other properties' files are not this check's business
+    coq_build([])
     failed_files = set()
     for m in re.finditer(r'File "\./([^"]+)", line (\d+)', out):
         failed_files.add(m.group(1))
